@@ -70,9 +70,13 @@ def run(ctx, rep):
                     guards.append(n)
     if not inv:
         rep.undecided("L2", f, "inversion", "no inv/pinv/solve call found")
+    from ..astutil import guards_of
     for c in inv:
         cn = cfg.node_of(c)
         ok = any(cfg.dominates(g, cn) for g in guards) if cn is not None else False
+        # the same fact read off the conditions under which the statement is reached (if-body, else-branch or after a guard clause)
+        if not ok:
+            ok = any(t.endswith("is_fullrank_matA()") and pol for t, pol, _ in guards_of(c))
         rep.check(ok, "L2", f, c, "`if not qtomography.is_fullrank_matA(): raise` dominates the inversion",
                   "the inversion is reachable without passing the full-rank guard", node=c)
 
